@@ -101,6 +101,25 @@ def gen_jobs(rng, quick):
             h = new_hid()
             jobs.append(gen.enc(sym, content, p, api="Encode" if scheme is None else "EncodeWithColor", scheme=scheme, hid=h, hist=hist, tag="source"))
             jobs.append(dict(op="srcreq", src=h, hist=hist))   # placeholder: requests are sized after the source's size is known
+    # (d) large factors (far beyond three times the symbol): long thin synthetic sources keep the pictures small while pixel offsets and
+    # factor x offset products get large (reciprocal / fixed-point shortcuts in the index arithmetic go wrong there first)
+    big = [(100, 1, 1, [41, 97] if quick else [27, 41, 45, 64, 97, 127, 251, 700]), (40, 1, 2, [60] if quick else [37, 60, 97]), (1, 40, 2, [60] if quick else [37, 60, 97])]
+    if not quick:
+        big += [(30, 2, 2, [50]), (95, 1, 1, [33, 55])]
+    for (ow, oh, dim, factors) in big:
+        hist += 1
+        h = new_hid()
+        px = [[rng.randint(0, 1) for _ in range(ow)] for _ in range(oh)]
+        px[0][0], px[-1][-1] = 1, 1
+        jobs.append(dict(op="synth", dim=dim, px=px, hasscheme=True, hascs=False, cs=0, hid=h, hist=hist))
+        for f in factors:
+            w = ow * f + rng.randrange(f)
+            hh = rng.choice([1, 2]) if dim == 1 else oh * f + rng.randrange(f)
+            j = dict(op="scale", src=h, w=w, hh=hh, hid=new_hid(), hist=hist)
+            fill = rng.choice(FILLS)
+            if fill is not None:
+                j["fill"] = fill
+            jobs.append(j)
     # (c) an unsupported dimensionality
     hist += 1
     h = new_hid()
